@@ -61,3 +61,14 @@ add('C15',
                  'ASan red zones around exact-size source buffers and exact-size owned blocks observe over-reads'],
     )
 C16_JOBS.append(job('strings', 'c15_strings.cpp', args=['--arg', 'prop=C16'], shards={'quick': 4, 'thorough': 8}, hang_is_violation=True))
+
+# ---------------------------------------------------------------------------------------------- C14
+add('C14',
+    level='exploration',
+    rule='seeded operation histories on frg::hash_map compared with std::unordered_map after every operation, for 6 hash functors (identity, constant, k&3, frg::hash, capacity-adversarial multiples, high-bit) and value types int / Elem',
+    jobs=[job('hashmap', 'c14_hashmap.cpp', args=['--arg', 'prop=C14'], shards={'quick': 8, 'thorough': 16}, hang_is_violation=True)],
+    min_evaluations={'quick': 1000, 'thorough': 30000},
+    min_counters={'cases_crossing_first_rehash': 200, 'cases_crossing_third_rehash': 100},
+    assumptions=['std::unordered_map is the executable reference map'],
+    )
+C16_JOBS.append(job('hashmap', 'c14_hashmap.cpp', args=['--arg', 'prop=C16'], shards={'quick': 4, 'thorough': 8}, hang_is_violation=True))
